@@ -82,13 +82,14 @@ Qed.
 Lemma setup_tr_nonempty off secs s tr0 : K.setup_kernel_tr off (K.nonempty secs) s tr0 = K.setup_kernel_tr off secs s tr0.
 Proof. unfold K.setup_kernel_tr. rewrite nonempty_idem. reflexivity. Qed.
 
-(** the composed statement.  The fuel condition of the C05 tie is needed for the NON-EMPTY sections only (for an empty
-    section at address 0 - the null section every ELF table starts with - its page count `size - 1` wraps to 2^52) *)
+(** the composed statement.  The fuel condition of the C05 tie ([K.fuel_ok], since its repair by vmmtrans) ranges over the
+    NON-EMPTY sections only (for an empty section at address 0 - the null section every ELF table starts with - the
+    page count `size - 1` would wrap to 2^52) *)
 Theorem setupPDT_through_visitElfSections (l : layout) (mb : mbinfo) (fuel : nat)
         (off : N) (s : VP.st) (tr0 : list gcall) (kfuel : nat) :
   mbinfo_wf (l_saddr l) (l_strtab l) mb -> layout_wf l (encode mb) ->
   (find_fuel (mem_of l (encode mb)) <= fuel)%nat -> (S (total_len (mem_of l (encode mb))) <= fuel)%nat -> 65536 <= N.of_nat fuel ->
-  off < two64 -> VP.last s < two64 -> K.fuel_ok kfuel (K.nonempty (block_secs mb)) s ->
+  off < two64 -> VP.last s < two64 -> K.fuel_ok kfuel (block_secs mb) s ->
   exists tr : list gcall,
     (* (1) the regenerated VisitElfSections on the block: no fault, memory untouched, visitor calls [tr] *)
     go_multiboot_VisitElfSections mld fuel (mkw [] (mem_of l (encode mb))) (l_info l) = GOk (mkw tr (mem_of l (encode mb)), tt) /\
@@ -112,8 +113,7 @@ Proof.
   { rewrite app_nil_r, delivered_events. apply nonempty_block_secs. }
   split; [exact (visitElfSections_on_block l mb [] fuel Hwf Hlw Hff Hfs Hfn)|].
   split; [exact Hd|]. split.
-  - rewrite Hd. rewrite <- (nonempty_idem (block_secs mb)). rewrite <- (setup_tr_nonempty off (block_secs mb)).
-    exact (K.setup_kernel_is_translation off (K.nonempty (block_secs mb)) s tr0 kfuel Hoff Hlast
-             (K.Forall_filter _ _ _ (block_secs_ok _ _ _ Hwf)) Hfuel).
+  - rewrite Hd.
+    exact (K.setup_kernel_is_translation off (block_secs mb) s tr0 kfuel Hoff Hlast (block_secs_ok _ _ _ Hwf) Hfuel).
   - exact (K.setup_kernel_tr_model off (block_secs mb) s tr0).
 Qed.
